@@ -650,7 +650,7 @@ func (g *Gen) discharge(fcs []*FnCtx, filter func(*Oblig) bool) {
 					timedOut = true
 				}
 			}
-			if timedOut {
+			if timedOut && !noRetryFlag {
 				again = append(again, o)
 				byO[o] = fc
 			}
